@@ -68,4 +68,32 @@ void h_version_parse_actual(void)
 	if (r == 0 && w_str[0] == ' ') REACH("FINDING L3: leading white space accepted");
 	if (r == 0 && w_str[0] == '+') REACH("FINDING L3: plus sign accepted");
 	if (r == 0 && w_str[0] == '-') REACH("FINDING L3: -0 accepted");
+#if VP_N >= 16
+	if (r == 0 && w_str[0] == '4' && w_str[1] == '2' && w_str[2] == '9' && w_str[3] == '4' && w_str[4] == '9' &&
+			w_str[5] == '6' && w_str[6] == '7' && w_str[7] == '2' && w_str[8] == '9' && w_str[9] == '7' && w_str[10] == '.')
+		REACH("FINDING L4: 4294967297.x.y accepted (narrowed to an int)");
+#endif
+}
+
+/* ---- twin of the finding (NOT in the plan: it is expected to FAIL on the unchanged tree) ----
+ * The strict contract without the carve-out.  Wire it as a group
+ *   {"id":"version_parse_strict","entry":"h_version_parse_strict","enforce":["version_parse/c_version_parse_strict"], ...}
+ * together with a `finding:` line in known_findings.txt once the finding is accepted. */
+int c_version_parse_strict(const char *version, int tuple[3])
+__CPROVER_requires(version == NULL || spec_terminated(version))
+__CPROVER_requires(__CPROVER_is_fresh(tuple, 3 * sizeof(int)))
+__CPROVER_requires(DIAG_PRE_LEAF)
+__CPROVER_requires(WBIND(version_parse, VP_BIND(version)))
+__CPROVER_assigns(__CPROVER_object_whole(tuple), __CPROVER_errno, DIAG_FRAME, MODEL_FRAME)
+__CPROVER_ensures(vp_post_iff(version, __CPROVER_return_value))
+;
+
+void h_version_parse_strict(void)
+{
+	int *tuple;
+	const char *version = nondet_bool() ? NULL : h_buf;
+	WITNESS_ON(version_parse);
+	int r = version_parse(version, tuple);
+	if (r == 0) REACH("accepted");
+	if (r != 0) REACH("refused");
 }
